@@ -380,7 +380,7 @@ def run_fixture2(rep, rng, quick):
     cases = []
     for k in range(4):
         for c in itertools.combinations(TLEVELS[1:], k):
-            for name in (["T", "id_t"] if quick else ["T", "id_t", "A", "U", "size_t", "t"]):
+            for name in (["T", "id_t"] if quick else ["T", "id_t", "Atype", "u_t", "size_t", "t"]):
                 xml = build_types(set(c), name)
                 cases.append((set(c), name, Case("ty%d" % len(cases), [Step("parse_builder", 0, "xml_buffer", 1, "doc", 1, xml)], timeout=60)))
     res = run_cases([c for _, _, c in cases])
